@@ -255,4 +255,35 @@ func dischargeAll(obls []*Obligation, prelude *Prelude, workDir string, timeoutS
 		}()
 	}
 	wg.Wait()
+	// second chance: an obligation that only timed out (no solver said sat) is retried once, alone on the machine's
+	// spare capacity, with four times the budget - a loaded machine must not turn a slow proof into an alarm
+	var retry []*Obligation
+	for _, o := range obls {
+		if o.File != "" && (o.Result == "timeout" || o.Result == "unknown") && o.Kind != "cover" {
+			retry = append(retry, o)
+		}
+	}
+	if len(retry) == 0 || len(retry) > 24 {
+		return
+	}
+	sem2 := make(chan struct{}, 4)
+	for _, o := range retry {
+		o := o
+		wg.Add(1)
+		sem2 <- struct{}{}
+		go func() {
+			defer wg.Done()
+			defer func() { <-sem2 }()
+			r := solve(o.File, timeoutS*4, wantUnsat)
+			if r.status == "unsat" && r.backend == solvers[0].name && !fnSanity(o.Fn, workDir, prelude, obls) {
+				r = solveWith(o.File, timeoutS*4, wantUnsat, solvers[1:])
+			}
+			if r.status == "unsat" || r.status == "sat" {
+				o.Result, o.Backend, o.Ms = r.status, r.backend+"(retry)", o.Ms+r.ms
+				o.Model = r.output
+				o.All = r.all
+			}
+		}()
+	}
+	wg.Wait()
 }
